@@ -17,12 +17,12 @@ from vlib.monitor import fmt_exc
 from vlib.ref import COST_ALIASES, NEEDS_ERRORS, POISSON, cost_formula, pd_info
 
 PROPERTY = "C06"
-TIERS = {"quick": {"shards": 8, "budget_s": 45}, "thorough": {"shards": 16, "budget_s": 600}}
+TIERS = {"quick": {"shards": 8, "budget_s": 50}, "thorough": {"shards": 16, "budget_s": 600}}
 RULE = (
     "nonlinear family (exponential, powerlaw, gausspeak, lorentz, sinusoid, logistic; densities normal/expdens/mixture) as xy / indexed / hist / unbinned fit; "
     "data = model + declared noise; sources: y / x / model-relative / correlated; costs chi2, chi2_pointwise, nll_gaussian, nll_poisson, nllr_poisson, gauss_approximation, unbinned nll; "
     "dynamic_error_algorithm in {nonlinear, iterative}; random fixed / limited subsets incl. limits that cut the optimum off; both backends fitted on every case; "
-    "every fourth case of a shard is a MultiFit of two xy / indexed members of nonlinear families (same family: all parameters shared; exponential+powerlaw, gausspeak+lorentz: "
+    "every fifth case of a shard is a MultiFit of two xy / indexed members of nonlinear families (same family: all parameters shared; exponential+powerlaw, gausspeak+lorentz: "
     "partly shared; signature order permuted with p = 0.3), data of both members drawn from one truth, every member with its own sources, no shared source; per member "
     "'dynamic' (x source or source relative to the model) or 'static' (absolute y sources only) in all combinations and both orders (mixed : all-dynamic : none-dynamic = 4 : 1 : 1); "
     "fixed / limited parameters declared on the MultiFit; start values 7 % (all families) or up to 30 % (monotone families, p = 0.7) off the defaults; "
@@ -173,9 +173,9 @@ def gen_multi(rng, tier, k, shard):
 
 
 def gen_case(rng, tier, idx, shard, nshards):
-    if idx % 4 == 1:
-        return gen_multi(rng, tier, idx // 4, shard)
-    idx = idx - (idx + 2) // 4  # the single-fit cases keep their own enumeration
+    if idx % 5 == 1:
+        return gen_multi(rng, tier, idx // 5, shard)
+    idx = idx - (idx + 3) // 5  # the single-fit cases keep their own enumeration
     gi = idx * nshards + shard
     ftype = ["xy", "xy", "indexed", "hist", "unbinned", "xy"][gi % 6]
     dea = ["nonlinear", "iterative"][(gi // 6) % 2] if ftype != "unbinned" else "nonlinear"
